@@ -155,7 +155,7 @@ func child(name, outPath string) {
 	env := univ.Bind(registry.Probes[name]())
 	srv := drive.NewServer(env)
 	seed := ev.Seed()
-	nOps := ev.Pick(25, 150)
+	nOps := ev.Pick(12, 150)
 	wl := fmt.Sprint(env.Probe.Options["worker_limit"])
 	count := func(k string, n int64) { cr.Counts[k] += n }
 
